@@ -216,7 +216,10 @@ def handleScan (ds : DState) (sc : ScanCase) : DState × Json :=
         | some ctx =>
           let mine := (paired.filter (fun t => t.1 == c.name)).map (fun t => t.2)
           (Spec.C03.staleBad ctx mine).map (fun t => "C03:" ++ c.name ++ ":" ++ t) ++
-          (Spec.C08.skippedBad ctx mine).map (fun t => "C08:" ++ c.name ++ ":" ++ t))
+          (Spec.C08.skippedBad ctx mine).map (fun t => "C08:" ++ c.name ++ ":" ++ t) ++
+          -- (not for the group at which a scan ended fatally: it may have stopped before the taint loop)
+          (if sc.obs.outcome != "ok" && (sc.obs.recs.getLast?.map (·.name)) == some ob.name then []
+           else (Spec.C06.tooFewBad ctx mine).map (fun t => "C06:" ++ c.name ++ ":" ++ t)))
     let mons := mons ++ mon03
     -- C02 on the observed journals
     let mon02 : List String := sc.obs.recs.flatMap (fun ob =>
